@@ -260,6 +260,9 @@ func (c *Ctx) readerSiblings(rule string) {
 		if known[fn.Name()] {
 			continue
 		}
+		if o := fn.Object(); o == nil || !o.Exported() {
+			continue // an unexported helper is reachable only through the methods the rules decide
+		}
 		// does it read?  a call of some Read([]byte), of NextReader, or of a library copier
 		reads := false
 		for _, b := range fn.Blocks {
